@@ -43,7 +43,7 @@ class Check(CheckBase):
 
     def generate(self):
         quick = self.tier == 'quick'
-        n = 48 if quick else 800
+        n = 48 if quick else 2400
         cases = []
         for i in range(n):
             r = random.Random(f'C06/{self.seed}/{i}')
